@@ -681,11 +681,15 @@ impl<K: KeyT, const N: usize> SetSys<K, N> {
             for k in 0..fill {
                 s.insert(K::mk(k, 0));
             }
-            for k in (0..fill).chain((0..fill).rev()) {
+            // descending, then ascending: the final touch of every kind lands on the last slot
+            for k in (0..fill).rev().chain(0..fill) {
                 K::with_q(k, |q| {
                     let _ = s.contains(q);
                     let _ = s.get(q);
                 });
+                // the writing operations, as a re-insertion of the present element
+                let _ = s.insert(K::mk(k, 0));
+                let _ = s.replace(K::mk(k, 0));
             }
             match mode {
                 1 => drop(s.drain()),
